@@ -12,8 +12,8 @@ ASSUMPTIONS = [
     "trusted: clang 14 + ASan/UBSan, rapidcheck, libstdc++ containers",
 ]
 SUBS = [
-    dict(name="heap", quick=dict(cases=9000, shards=10, maxsec=30), thorough=dict(cases=90000, shards=10, maxsec=420)),
-    dict(name="timerqueue", quick=dict(cases=10000, shards=6, maxsec=30), thorough=dict(cases=100000, shards=6, maxsec=420)),
+    dict(name="heap", quick=dict(cases=9000, shards=10, maxsec=25), thorough=dict(cases=90000, shards=10, maxsec=300)),
+    dict(name="timerqueue", quick=dict(cases=10000, shards=6, maxsec=25), thorough=dict(cases=100000, shards=6, maxsec=300)),
 ]
 
 
